@@ -92,7 +92,28 @@ def witness(chk, ex, name, cond=True):
     return m
 
 
+class _Safe(object):
+    """runs the worker and turns an escaping exception into a result record (one failing case must
+    not discard the results of all the others)"""
+
+    def __init__(self, worker):
+        self.worker = worker
+
+    def __call__(self, case):
+        try:
+            return self.worker(case)
+        except BaseException as e:
+            traceback.print_exc()
+            c = common.Check(case[0], case[1])
+            kind = 'harness_errors' if isinstance(e, common.HarnessError) else 'inconclusive'
+            msg = 'case %r: %s: %s' % (case[2:], type(e).__name__, str(e)[-400:])
+            print('%s: property=%s %s' % ('HARNESS-ERROR' if kind == 'harness_errors' else 'INCONCLUSIVE', case[0], msg))
+            getattr(c, kind).append(msg)
+            return export(c)
+
+
 def run_cases(chk, cases, worker, procs=None):
+    worker = _Safe(worker)
     """Run worker(case) for each case in a process pool; each returns a partial result dict
     that is merged into chk.  worker must be a top-level function (picklable by name)."""
     import multiprocessing as mp
